@@ -36,6 +36,9 @@ func msgs() []proch.Msg {
 		// target chain 255 vs 2550): a stored VAA of THESE must not make message 0 "late"
 		{Seq: 10, Payload: []byte{4}, Emitter: e, Chain: 2, Target: 255},
 		{Seq: 1, Payload: []byte{5}, Emitter: e, Chain: 2, Target: 2550},
+		// 5: an ordinary contract's message on the chain the governance contract lives on (that chain is a watched
+		// chain like any other): retried and re-requested like every other message
+		{Seq: 6, Payload: []byte{6}, Emitter: e, Chain: proch.GovChain, Target: 255},
 	}
 }
 
@@ -81,6 +84,7 @@ func jobs(r *ev.Run) []job {
 		fault("store-fails/late", []proch.Event{set, msg0, lb, {Kind: "in", M: 0, InVar: 0, InSet: 0}}),
 		fault("store-fails/settled", []proch.Event{set, msg0, lb, {Kind: "tick", DtSec: 31}}),
 		mk("observed-unsubmitted", n3, []proch.Event{set, msg0, lb}, d),
+		mk("observed-unsubmitted/ordinary-emitter-on-the-governance-chain", n3, []proch.Event{set, {Kind: "msg", M: 5}, lb}, d-1),
 		mk("observed+unobserved", n3, []proch.Event{set, msg0, lb, {Kind: "obs", G: 1, D: 2}}, d),
 		mk("unobserved-only", n3, []proch.Event{set, {Kind: "obs", G: 1, D: 2}}, d),
 		mk("submitted", n1, []proch.Event{set, msg0, lb}, d),
